@@ -54,6 +54,7 @@ func (r *ObRun) setup() *Ctx {
 	c.maxInstr = int64(atoiDef(r.attr("maxinstr", ""), 0))
 	c.cutFix = r.attr("cutfix", "")
 	c.guardType = r.attr("guarded", "")
+	c.asmSimSpec = r.attr("asmsim", "")
 	c.shadow = r.attr("shadow", "") != ""
 	c.trace = verbose
 	if ap := r.attr("allowpanic", ""); ap != "" {
